@@ -97,7 +97,8 @@ struct Enumerator {
 		std::string t = p.text; size_t k = t.find("include/frg/"); if(k != std::string::npos) t = t.substr(k + 8);
 		res.add_violation({default_prop, "panic:" + opclass + ":" + t.substr(0, t.find(": Assertion")), "library assertion on input " + key + ": " + t}, key);
 	}
-	InstResult finish() { res.states = 0; return res; }
+	double t0 = now_s();
+	InstResult finish() { res.states = 0; res.wall = now_s() - t0; return res; }
 };
 
 #define EXPECT(cond, prop, sig, msg) do { if(!(cond)) throw ::verif::Violation{prop, sig, msg}; } while(0)
